@@ -2370,6 +2370,19 @@ impl TxParticipant {
         &self.store
     }
 
+    /// The store key `apply_operations` writes for an operation. Row updates and deletes
+    /// go to `table:<t>:row:<id>`, which `Transaction::storage_key()` (the table's own
+    /// key) does not name; locking and the undo log must use the written key.
+    fn written_key(op: &Transaction) -> String {
+        match op {
+            Transaction::TableUpdate { table, row_id, .. }
+            | Transaction::TableDelete { table, row_id } => {
+                format!("table:{table}:row:{row_id}")
+            },
+            other => other.storage_key(),
+        }
+    }
+
     pub fn prepare(&self, request: PrepareRequest) -> PrepareVote {
         // Use affected_key() for locking (logical keys)
         let lock_keys: Vec<String> = request
@@ -2390,7 +2403,7 @@ impl TxParticipant {
         // of them restores its prepare-time snapshot over the other's committed write.
         let mut all_lock_keys = lock_keys.clone();
         for op in &request.operations {
-            let storage_key = op.storage_key();
+            let storage_key = Self::written_key(op);
             if !all_lock_keys.contains(&storage_key) {
                 all_lock_keys.push(storage_key);
             }
@@ -2412,12 +2425,12 @@ impl TxParticipant {
             },
         };
 
-        // Capture undo log using storage_key() (actual keys in TensorStore)
+        // Capture undo log using the keys apply_operations writes in TensorStore.
         // This ensures rollback operates on the correct keys
         let undo_log: Vec<UndoEntry> = request
             .operations
             .iter()
-            .map(|op| UndoEntry::capture(&op.storage_key(), &self.store))
+            .map(|op| UndoEntry::capture(&Self::written_key(op), &self.store))
             .collect();
 
         // Compute checksums for integrity verification during rollback
